@@ -38,7 +38,7 @@ type opts struct {
 	repo, pkg, entry, sched, solverKind, out, mapOrder, knownFile, propID string
 	harness, patches, stubs, params                              multi
 	workers, maxSteps, maxPaths, timeoutSec, qTimeoutMs          int
-	pam, verbose, trace, noPanicViol, models, abstract           bool
+	pam, verbose, trace, noPanicViol, models, abstract, unwindViol bool
 	seed                                                         int
 }
 
@@ -69,6 +69,7 @@ func parseFlags(args []string) *opts {
 	fs.BoolVar(&o.trace, "trace", false, "trace instructions")
 	fs.BoolVar(&o.noPanicViol, "panics-ok", false, "uncaught target panics are not violations")
 	fs.BoolVar(&o.abstract, "abstract", false, "abstract div/rem/nonlinear mul as UFs for exploration; confirm counterexamples precisely")
+	fs.BoolVar(&o.unwindViol, "unwind-violation", false, "exhausting the step budget counts as a violation (non-termination within the bound)")
 	fs.BoolVar(&o.models, "models", false, "collect a model for passing paths (samples)")
 	fs.Parse(args)
 	return o
@@ -327,6 +328,7 @@ func workerMain(o *opts) {
 	interp.Cfg.Trace = o.trace
 	interp.Cfg.Harness = o.entry
 	interp.Cfg.NoPanicViol = o.noPanicViol
+	interp.Cfg.UnwindViolation = o.unwindViol
 	for _, s := range o.stubs {
 		kv := strings.SplitN(s, "=", 2)
 		interp.Cfg.Stubs[kv[0]] = kv[1]
@@ -605,7 +607,7 @@ func runMain(o *opts, rawArgs []string) int {
 	bad := 0
 	for st, n := range sum.Status {
 		switch st {
-		case "ok", "assume", "infeasible", "exit", "panic", "deadlock", "crash":
+		case "ok", "assume", "infeasible", "exit", "panic", "deadlock", "crash", "nontermination":
 		default:
 			bad += n
 		}
